@@ -37,6 +37,10 @@ pub struct Plan {
     /// (a truncated file read through a pipe / small buffer): the verdict must be the same
     #[serde(default)]
     pub delivery: u64,
+    /// which reader family reads the truncated file: 0 = the sync readers and their async twins
+    /// (generated plans), 1 = sync only, 2 = async only (narrowed plans)
+    #[serde(default)]
+    pub family: u8,
 }
 
 fn delivery_chunking(seed: u64, len: usize) -> Chunking {
@@ -289,6 +293,7 @@ impl Check for C13 {
             variants: Vec::new(),
             cuts,
             delivery: if rng.chance(1, 4) { rng.next_u64() | 1 } else { 0 },
+            family: 0,
         })
         .unwrap()
     }
@@ -340,6 +345,13 @@ impl Check for C13 {
                 vec![variants[ci % variants.len()]]
             };
             for v in vs {
+              for is_async in [false, true] {
+                if (is_async && p.family == 1) || (!is_async && p.family == 2) {
+                    continue;
+                }
+                if is_async && !crate::fmt::aio::has_async_reader(p.file.kind, v) {
+                    continue;
+                }
                 let narrowed = || {
                     serde_json::to_value(Plan {
                         kind: p.kind.clone(),
@@ -347,26 +359,61 @@ impl Check for C13 {
                         variants: vec![v],
                         cuts: Cuts::List(vec![k]),
                         delivery: p.delivery,
+                        family: if is_async { 2 } else { 1 },
                     })
                     .unwrap()
                 };
                 if !ctx.begin_sub(narrowed) {
                     continue;
                 }
-                let d = Delivery {
-                    read: ReadPlan {
-                        chunking: chunking.clone(),
-                        ..ReadPlan::cut(k)
-                    },
-                    wrap: Wrap::Direct,
+                let obs = if is_async {
+                    // the async twin of the reader over the surviving bytes (plain poll schedule,
+                    // or partial transfers when the case uses short-read delivery)
+                    use crate::seams::aio::{AioCounters, AioPlan, Part, Pend, SimAsyncRead};
+                    let aio = if p.delivery == 0 {
+                        AioPlan::plain()
+                    } else {
+                        AioPlan {
+                            pend: Pend::Prob { num: 1, den: 4 },
+                            part: match &chunking {
+                                Chunking::One => Part::One,
+                                Chunking::Random { max, .. } => Part::Random { max: *max },
+                                _ => Part::Full,
+                            },
+                            seed: p.delivery,
+                            max_gate_delay: 2,
+                        }
+                    };
+                    let counters = std::sync::Arc::new(std::sync::Mutex::new(AioCounters::default()));
+                    counters.lock().unwrap().budget = 40_000_000 + 64 * k as u64;
+                    let data = std::sync::Arc::new(made.bytes[..k.min(len)].to_vec());
+                    let src = SimAsyncRead::new(data, aio.clone(), counters.clone());
+                    let kind = p.file.kind;
+                    match crate::aexec::run(&aio, counters.clone(), || crate::fmt::aio::aread(kind, v, src, 1)) {
+                        Ok(o) => o,
+                        Err(pn) => crate::fmt::Obs {
+                            items: Vec::new(),
+                            bytes: Vec::new(),
+                            end: End::Panic { witness: pn.witness(), msg: format!("{}: {}", pn.location, pn.message) },
+                        },
+                    }
+                } else {
+                    let d = Delivery {
+                        read: ReadPlan {
+                            chunking: chunking.clone(),
+                            ..ReadPlan::cut(k)
+                        },
+                        wrap: Wrap::Direct,
+                    };
+                    let (src, _c) = d.open(made.bytes.clone());
+                    kinds::read(p.file.kind, v, src)
                 };
-                let (src, _c) = d.open(made.bytes.clone());
-                let obs = kinds::read(p.file.kind, v, src);
                 ctx.stats.evaluations += 1;
                 ctx.stats.steps += 1;
+                ctx.stats.probe_if("async_reader_on_truncated_file", is_async);
                 if k < len {
                     ctx.stats.fault("R_CUT", 1);
-                    ctx.stats.nontrivial(Fnv::new().u64(file_hash).u64(k as u64).u64(v as u64).get());
+                    ctx.stats.nontrivial(Fnv::new().u64(file_hash).u64(k as u64).u64(v as u64).u64(is_async as u64).get());
                     let cc = cut_class(&made, k);
                     ctx.stats.probe(&format!("cut_{cc}"), 1);
                     if matches!(obs.end, End::Err { .. }) {
@@ -388,7 +435,7 @@ impl Check for C13 {
                         cut_class(&made, k).to_string()
                     };
                     let violation = Violation::new(
-                        &format!("{}:{}", p.file.kind.name(), kinds::variant_name(p.file.kind, v)),
+                        &format!("{}:{}{}", p.file.kind.name(), if is_async { "async-" } else { "" }, kinds::variant_name(p.file.kind, v)),
                         &class,
                         &witness,
                         format!("cut at {k} of {len}: {msg}"),
@@ -397,17 +444,11 @@ impl Check for C13 {
                     if seen_sig.insert(sig) {
                         findings.push(Finding {
                             violation,
-                            plan: serde_json::to_value(Plan {
-                                kind: p.kind.clone(),
-                                file: p.file.clone(),
-                                variants: vec![v],
-                                cuts: Cuts::List(vec![k]),
-                                delivery: p.delivery,
-                            })
-                            .unwrap(),
+                            plan: narrowed(),
                         });
                     }
                 }
+              }
             }
         }
         ctx.stats.kind(p.file.kind.name());
